@@ -147,6 +147,49 @@ def run(ctx):
                         problems.append(("correspondence:chart:" + typ, "implementation %r, model %r" % (got, mm), rq, False))
             if len(problems) > 20:
                 break
+        # ---- lm/partial.hh: reveal context incrementally on both sides of a fragment (CheckAdjustment of partial_test.cc)
+        pcases = []
+        for s in sents:
+            s = s[:8]
+            for _ in range(ctx.pick(3, 8)):
+                a = rng.range(0, len(s))
+                b = rng.range(a, len(s))
+                pcases.append((s[:a], s[a:b], s[b:]))
+        fmtp = lambda c: " ; ".join(" ".join("%x" % w for w in part) for part in c)
+        plines = ["P " + fmtp(c) for c in pcases]
+        ml2 = m.session_lines()
+        n2 = len(ml2)
+        for k in ("P", "T"):
+            ml2 += ["P %s %s" % (k, fmtp(c)) for c in pcases]
+        mo2 = vlib.run_lines(model_exe, ml2)
+        mres2 = {"P": mo2[n2:n2 + len(pcases)], "T": mo2[n2 + len(pcases):]}
+        for typ in ["probing", "rest", "trie"]:
+            rc, out, err = vlib.sh([lmq, sess.arpa, typ, sess.vocab, "tmp=" + sess.dir + "/"], input=("\n".join(plines) + "\n").encode(), timeout=300)
+            stats["impl_runs"] += 1
+            res = out.split("\n")
+            if not res or not res[0].startswith("loaded"):
+                continue
+            body = res[1:1 + len(pcases)]
+            if len(body) != len(pcases):
+                problems.append(("crash:partial:" + typ, "driver died in RevealBefore/RevealAfter (rc=%d) %s" % (rc, err[-200:]), dict(base, type=typ), True))
+                continue
+            for ci, (c, line) in enumerate(zip(pcases, body)):
+                f = line.split()
+                stats["reveals"] = stats.get("reveals", 0) + 1
+                vals = []
+                for x in f[:5]:
+                    u = lc.bits_to_units(int(x, 16))
+                    vals.append(int(u) if u.denominator == 1 else u)
+                got, full, pb, pm, pa = vals
+                rq = dict(base, type=typ, before=c[0], between=c[1], after=c[2])
+                if got != full - pb - pm - pa:
+                    problems.append(("spec:reveal-adjustment:" + typ, "revealed adjustments sum to %s/64, whole minus parts is %s/64" % (got, full - pb - pm - pa), rq, True))
+                if typ in ("probing", "trie"):
+                    mf = mres2[lc.KIND[typ]][ci].split()
+                    mv = [(-int(v[1:], 16) if v.startswith("-") else int(v, 16)) for v in mf[:5]]
+                    same = mv == vals and mf[5:7] == f[5:7] and lc.parse_state_model(mf[7] if len(mf) > 7 else "/") == lc.parse_state_impl(f[7] if len(f) > 7 else "/")
+                    if not same:
+                        problems.append(("correspondence:partial:" + typ, "implementation %s, model %s" % (line, mres2[lc.KIND[typ]][ci]), rq, False))
         if mi < 2:
             ctx.sample({"order": m.order, "vocab": len(m.vocab), "ngrams": len(m.grams), "suffix_closed": m.suffix_closed(),
                         "tree": " ".join(cases[0][2]) if cases else None})
